@@ -3,13 +3,18 @@
     Pause/Start/Kill/UpdateRequestContext, AddResponse, InitiateRequests,
     SkipCurrentRequestBatch, Add/Delete(New)RequestBatch(Expiration); keeper/state_change.go).
 
-    Kept: every request context created by MsgCallService (no owning module) with its state,
+    Kept: every request context — created by MsgCallService (no owning module), by the oracle
+    module (a feed: CreateFeed / StartFeed / PauseFeed / EditFeed) or by the random module (an
+    oracle random request: RequestService, started by random's begin blocker) — with its state,
     batch state, batch counter, timeout, repetition parameters, consumer and the request /
     response counts of the current batch; the two queues (prefix 0x08 expired batches, 0x09 new
     batches: key = be64 height ‖ context id) as sets of [(height, id)]; the two per-context
     height markers (0x10, 0x11) that [Has…] reads.  Providers, prices and fees belong to
     C07/C08: which providers pass the filter and whether the consumer can pay are inputs of the
-    block operation. *)
+    block operation.  The module callbacks (Keeper.Callback -> HandlerResponse of oracle / random,
+    OnRequestContextPaused -> HandlerStateChanged) are kept as far as they can abort: both
+    HandlerResponse dereference a nil error when called with no output and no error, and
+    random's dereferences one when the seed decodes but has the wrong length. *)
 From Irismod Require Export Queues.Common.
 
 Inductive cstate := CRunning | CPaused | CCompleted.
@@ -27,11 +32,17 @@ Record rctx := mkC {
   c_total : Z;            (* RepeatedTotal *)
   c_consumer : Z;
   c_reqs : Z;             (* BatchRequestCount *)
-  c_resps : Z             (* BatchResponseCount *)
+  c_resps : Z;            (* BatchResponseCount *)
+  c_module : Z;           (* ModuleName: 0 none (MsgCallService), 1 oracle (a feed), 2 random (an oracle request) *)
+  c_nprov : Z;            (* len(Providers) *)
+  c_thr : Z;              (* ResponseThreshold *)
+  c_bthr : Z;             (* BatchResponseThreshold *)
+  c_outs : Z;             (* responses of the current batch that carry an output (GetResponseOutputs) *)
+  c_badseed : bool        (* random: such an output carries a seed that decodes but has the wrong length *)
 }.
 
 (** what [GetRequestContext] returns for an unknown id *)
-Definition zero_ctx : rctx := mkC CRunning false 0 0 false 0 0 (-1) 0 0.
+Definition zero_ctx : rctx := mkC CRunning false 0 0 false 0 0 (-1) 0 0 0 0 0 0 0 false.
 
 Record state := mkS {
   height : Z;
@@ -55,12 +66,16 @@ Inductive nbres :=
 | NBNoFunds.           (* the consumer cannot pay: the context is paused *)
 
 Inductive op :=
-| Call (id consumer timeout : Z) (repeated : bool) (freq total : Z) (rest : outcome)
+| Call (id consumer timeout : Z) (repeated : bool) (freq total nprov : Z) (rest : outcome)
+| CallM (id consumer module timeout : Z) (repeated : bool) (freq total thr nprov : Z) (rest : outcome)
+| MStart (id sender : Z) (rest : outcome)          (* oracle StartFeed / random's begin blocker *)
+| MPause (id sender : Z) (rest : outcome)          (* oracle PauseFeed *)
+| MUpdate (id sender thr nprov timeout freq : Z) (rest : outcome)   (* oracle EditFeed *)
 | Pause (id sender : Z) (rest : outcome)
 | Start (id sender : Z) (rest : outcome)
 | Kill (id sender : Z) (rest : outcome)
 | Update (id sender timeout freq total : Z) (rest : outcome)
-| Respond (id : Z) (rest : outcome)
+| Respond (id : Z) (good seedok : bool) (rest : outcome)   (* good: the response carries an output *)
 | EndBlock (res : list (Z * nbres)).
 
 Definition upd (s : state) (cs : amap Z rctx) : state :=
@@ -77,7 +92,7 @@ Definition del_exp (s : state) (id h : Z) : state :=
   mkS (height s) (ctxs s) (nq s) (deq (h, id) (xq s)) (nmark s) (del id (xmark s)) (ndone s) (xdone s ++ [((h, id), height s)]).
 
 (** MsgCallService.ValidateBasic (ValidateRequest) + Keeper.CreateRequestContext with state RUNNING *)
-Definition call (s : state) (id consumer timeout : Z) (repeated : bool) (freq total : Z) (rest : outcome)
+Definition call (s : state) (id consumer timeout : Z) (repeated : bool) (freq total nprov : Z) (rest : outcome)
   : state * outcome :=
   if (timeout <=? 0) || (max_timeout <? timeout) || (freq <? 0) then (s, Rej)      (* freq is a uint64 *)
   else if repeated && (((0 <? freq) && (freq <? timeout)) || (total <? -1) || (total =? 0)) then (s, Rej)
@@ -86,31 +101,55 @@ Definition call (s : state) (id consumer timeout : Z) (repeated : bool) (freq to
   | Ok =>
       let f := if repeated then (if freq =? 0 then timeout else freq) else 0 in
       let t := if repeated then total else 0 in
-      let c := mkC CRunning true 0 timeout repeated f t consumer 0 0 in
+      let c := mkC CRunning true 0 timeout repeated f t consumer 0 0 0 nprov 0 0 0 false in
       (add_new (upd s (set id c (ctxs s))) id (height s), Ok)
   | r => (s, r)                                   (* definition, bindings' input schema, fee cap *)
   end.
 
 Definition set_state (c : rctx) (st : cstate) : rctx :=
-  mkC st (c_done c) (c_counter c) (c_timeout c) (c_repeated c) (c_freq c) (c_total c) (c_consumer c) (c_reqs c) (c_resps c).
+  mkC st (c_done c) (c_counter c) (c_timeout c) (c_repeated c) (c_freq c) (c_total c) (c_consumer c) (c_reqs c) (c_resps c)
+      (c_module c) (c_nprov c) (c_thr c) (c_bthr c) (c_outs c) (c_badseed c).
+
+(** Keeper.CreateRequestContext called by a module (oracle CreateFeed; random RequestService),
+    state PAUSED: no queue entry yet.  random always names exactly one provider. *)
+Definition callm (s : state) (id consumer module timeout : Z) (repeated : bool) (freq total thr nprov : Z)
+           (rest : outcome) : state * outcome :=
+  if (module <? 1) || (2 <? module) || ((module =? 2) && negb (nprov =? 1)) then (s, Rej)
+  else if (timeout <=? 0) || (max_timeout <? timeout) || (freq <? 0) then (s, Rej)
+  else if repeated && (((0 <? freq) && (freq <? timeout)) || (total <? -1) || (total =? 0)) then (s, Rej)
+  else if (thr <? 1) || (nprov <? thr) then (s, Rej)                  (* ErrInvalidResponseThreshold *)
+  else if has id (ctxs s) then (s, Rej)
+  else match rest with
+  | Ok =>
+      let f := if repeated then (if freq =? 0 then timeout else freq) else 0 in
+      let t := if repeated then total else 0 in
+      let c := mkC CPaused true 0 timeout repeated f t consumer 0 0 module nprov thr thr 0 false in
+      (upd s (set id c (ctxs s)), Ok)
+  | r => (s, r)
+  end.
+
+(** [bym]: called by the owning module (keeper level) rather than by a consumer message — the
+    message servers refuse contexts owned by a module (CheckAuthority with checkModule) *)
+Definition authorized (bym : bool) (sender : Z) (c : rctx) : bool :=
+  (sender =? c_consumer c) && (bym || (c_module c =? 0)).
 
 (** msgServer.PauseRequestContext (CheckAuthority) + Keeper.PauseRequestContext *)
-Definition pause (s : state) (id sender : Z) (rest : outcome) : state * outcome :=
+Definition pause_k (bym : bool) (s : state) (id sender : Z) (rest : outcome) : state * outcome :=
   match get id (ctxs s) with
   | None => (s, Rej)
   | Some c =>
-      if negb (sender =? c_consumer c) then (s, Rej)
+      if negb (authorized bym sender c) then (s, Rej)
       else if negb (c_repeated c) then (s, Rej)
       else if negb (eqb (c_state c) CRunning) then (s, Rej)
       else match rest with Ok => (upd s (set id (set_state c CPaused) (ctxs s)), Ok) | r => (s, r) end
   end.
 
 (** Keeper.StartRequestContext: re-queued only if in neither queue *)
-Definition start (s : state) (id sender : Z) (rest : outcome) : state * outcome :=
+Definition start_k (bym : bool) (s : state) (id sender : Z) (rest : outcome) : state * outcome :=
   match get id (ctxs s) with
   | None => (s, Rej)
   | Some c =>
-      if negb (sender =? c_consumer c) then (s, Rej)
+      if negb (authorized bym sender c) then (s, Rej)
       else if negb (eqb (c_state c) CPaused) then (s, Rej)
       else match rest with
       | Ok =>
@@ -120,58 +159,79 @@ Definition start (s : state) (id sender : Z) (rest : outcome) : state * outcome 
       end
   end.
 
-(** Keeper.KillRequestContext *)
+(** Keeper.KillRequestContext (only consumers' messages call it) *)
 Definition kill (s : state) (id sender : Z) (rest : outcome) : state * outcome :=
   match get id (ctxs s) with
   | None => (s, Rej)
   | Some c =>
-      if negb (sender =? c_consumer c) then (s, Rej)
+      if negb (authorized false sender c) then (s, Rej)
       else if negb (c_repeated c) then (s, Rej)
       else match rest with Ok => (upd s (set id (set_state c CCompleted) (ctxs s)), Ok) | r => (s, r) end
   end.
 
-(** MsgUpdateRequestContext.ValidateBasic + Keeper.UpdateRequestContext (providers and fee cap
-    are not kept) *)
-Definition update (s : state) (id sender timeout freq total : Z) (rest : outcome) : state * outcome :=
+(** MsgUpdateRequestContext.ValidateBasic + Keeper.UpdateRequestContext (fee cap not kept).
+    For a context owned by a module (only the oracle module calls it: EditFeed, with total -1)
+    the response threshold and the number of providers can change too: [thr] / [nprov] 0 = keep. *)
+Definition update_k (bym : bool) (s : state) (id sender thr nprov timeout freq total : Z) (rest : outcome)
+  : state * outcome :=
   match get id (ctxs s) with
   | None => (s, Rej)
   | Some c =>
       let t := if timeout =? 0 then c_timeout c else timeout in
       let f := if freq =? 0 then c_freq c else freq in
-      if negb (sender =? c_consumer c) then (s, Rej)
+      let th := if thr =? 0 then c_thr c else thr in
+      let np := if nprov =? 0 then c_nprov c else nprov in
+      if negb (authorized bym sender c) then (s, Rej)
+      else if bym && negb (c_module c =? 1) then (s, Rej)
       else if eqb (c_state c) CCompleted then (s, Rej)
-      else if (timeout <? 0) || (total <? -1) || (max_timeout <? timeout) then (s, Rej)
+      else if (timeout <? 0) || (total <? -1) || (max_timeout <? timeout) || (thr <? 0) || (nprov <? 0) then (s, Rej)
+      else if bym && (np <? th) then (s, Rej)                          (* ErrInvalidResponseThreshold *)
       else if f <? t then (s, Rej)
       else if (1 <=? total) && (total <? c_counter c) then (s, Rej)
       else match rest with
       | Ok =>
           let c' := mkC (c_state c) (c_done c) (c_counter c) (if 0 <? t then t else c_timeout c) (c_repeated c)
                         (if 0 <? f then f else c_freq c) (if total =? 0 then c_total c else total)
-                        (c_consumer c) (c_reqs c) (c_resps c) in
+                        (c_consumer c) (c_reqs c) (c_resps c)
+                        (c_module c) (if bym then np else c_nprov c) (if bym then th else c_thr c) (c_bthr c)
+                        (c_outs c) (c_badseed c) in
           (upd s (set id c' (ctxs s)), Ok)
       | r => (s, r)
       end
   end.
 
-(** Keeper.AddResponse, as far as the context goes *)
-Definition respond (s : state) (id : Z) (rest : outcome) : state * outcome :=
+(** Keeper.AddResponse, as far as the context goes: only an active request can be answered *)
+Definition respond (s : state) (id : Z) (good seedok : bool) (rest : outcome) : state * outcome :=
   match rest, get id (ctxs s) with
   | Ok, Some c =>
-      let n := c_resps c + 1 in
-      let c' := mkC (c_state c) (if n =? c_reqs c then true else c_done c) (c_counter c) (c_timeout c) (c_repeated c)
-                    (c_freq c) (c_total c) (c_consumer c) (c_reqs c) n in
-      (upd s (set id c' (ctxs s)), Ok)
-  | r, _ => (s, r)
+      if c_reqs c <=? c_resps c then (s, Rej)
+      else
+        let n := c_resps c + 1 in
+        let c' := mkC (c_state c) (if n =? c_reqs c then true else c_done c) (c_counter c) (c_timeout c) (c_repeated c)
+                      (c_freq c) (c_total c) (c_consumer c) (c_reqs c) n
+                      (c_module c) (c_nprov c) (c_thr c) (c_bthr c)
+                      (if good then c_outs c + 1 else c_outs c) (c_badseed c || (good && negb seedok)) in
+        (upd s (set id c' (ctxs s)), Ok)
+  | r, _ => (s, match r with Ok => Rej | _ => r end)
   end.
 
 Definition get_ctx (s : state) (id : Z) : rctx := match get id (ctxs s) with Some c => c | None => zero_ctx end.
+
+(** Keeper.Callback -> HandlerResponse of the owning module aborts (nil pointer dereference):
+    the error is nil (enough outputs) and either there is no output at all, or (random) the
+    seed of the output decodes but has the wrong length *)
+Definition cb_aborts (c : rctx) : bool :=
+  negb (c_module c =? 0) && (c_bthr c <=? c_outs c)
+  && ((c_outs c =? 0) || ((c_module c =? 2) && c_badseed c)).
 
 (** expiredRequestBatchHandler for the entry [(height, id)] *)
 Definition expire_one (s : state) (id : Z) : state :=
   let h := height s in
   let c := get_ctx s id in
   let c1 := mkC (c_state c) true (c_counter c) (c_timeout c) (c_repeated c) (c_freq c) (c_total c)
-                (c_consumer c) (c_reqs c) (c_resps c) in          (* CompleteBatch unless completed already *)
+                (c_consumer c) (c_reqs c) (c_resps c)
+                (c_module c) (c_nprov c) (c_thr c) (c_bthr c) 0 false in
+                                        (* CompleteBatch unless completed already; CleanBatch drops the responses *)
   let s1 := del_exp s id h in
   match c_state c1 with
   | CCompleted => upd s1 (del id (ctxs s1))                       (* CompleteServiceContext *)
@@ -186,7 +246,8 @@ Fixpoint lookup_res (id : Z) (res : list (Z * nbres)) : nbres :=
   match res with [] => NBStart 0 | (i, r) :: rest => if i =? id then r else lookup_res id rest end.
 
 (** newRequestBatchHandler for the entry [(height, id)].  A failing provider filter (no
-    exchange rate) skips the batch like an empty provider list does (fix of this property). *)
+    exchange rate) skips the batch like an empty provider list does (fix of this property).
+    (OnRequestContextPaused calls the module's HandlerStateChanged, which cannot abort.) *)
 Definition newbatch_one (res : list (Z * nbres)) (s : state) (id : Z) : state :=
   let h := height s in
   let c := get_ctx s id in
@@ -195,17 +256,23 @@ Definition newbatch_one (res : list (Z * nbres)) (s : state) (id : Z) : state :=
       match lookup_res id res with
       | NBStart n =>
           (* InitiateRequests / SkipCurrentRequestBatch + AddRequestBatchExpiration *)
+          let n' := if c_module c =? 2 then Z.min n 1 else n in      (* random: one provider *)
           let c' := mkC CRunning false (c_counter c + 1) (c_timeout c) (c_repeated c) (c_freq c) (c_total c)
-                        (c_consumer c) n 0 in
+                        (c_consumer c) n' 0 (c_module c) (c_nprov c) (c_thr c) (c_thr c) 0 false in
           del_new (add_exp (upd s (set id c' (ctxs s))) id (h + c_timeout c)) id h
       | NBNoFunds =>
           (* OnRequestContextPaused *)
           let c' := mkC CPaused true (c_counter c) (c_timeout c) (c_repeated c) (c_freq c) (c_total c)
-                        (c_consumer c) (c_reqs c) (c_resps c) in
+                        (c_consumer c) (c_reqs c) (c_resps c)
+                        (c_module c) (c_nprov c) (c_thr c) (c_bthr c) (c_outs c) (c_badseed c) in
           del_new (upd s (set id c' (ctxs s))) id h
       end
   | _ => del_new s id h
   end.
+
+(** the expiration handler calls the module callback of every batch still running: does one abort? *)
+Definition blocker_aborts (s : state) : bool :=
+  existsb (fun id => let c := get_ctx s id in negb (c_done c) && cb_aborts c) (map snd (due (height s) (xq s))).
 
 (** EndBlocker of the current block: expirations first, then the new batches (including those
     the expirations have just scheduled for this very height); then the next block opens *)
@@ -216,13 +283,17 @@ Definition end_block (s : state) (res : list (Z * nbres)) : state :=
 
 Definition step (s : state) (o : op) : state * outcome :=
   match o with
-  | Call id c t r f n rest => call s id c t r f n rest
-  | Pause id sd rest => pause s id sd rest
-  | Start id sd rest => start s id sd rest
+  | Call id c t r f n np rest => call s id c t r f n np rest
+  | CallM id c m t r f n thr np rest => callm s id c m t r f n thr np rest
+  | MStart id sd rest => start_k true s id sd rest
+  | MPause id sd rest => pause_k true s id sd rest
+  | MUpdate id sd thr np t f rest => update_k true s id sd thr np t f (-1) rest
+  | Pause id sd rest => pause_k false s id sd rest
+  | Start id sd rest => start_k false s id sd rest
   | Kill id sd rest => kill s id sd rest
-  | Update id sd t f n rest => update s id sd t f n rest
-  | Respond id rest => respond s id rest
-  | EndBlock res => (end_block s res, Ok)
+  | Update id sd t f n rest => update_k false s id sd 0 0 t f n rest
+  | Respond id good seedok rest => respond s id good seedok rest
+  | EndBlock res => if blocker_aborts s then (s, Abort) else (end_block s res, Ok)
   end.
 
 Fixpoint run (s : state) (ops : list op) : state :=
